@@ -72,7 +72,7 @@ theorem entries_valid {P : List Entry → Prop} {s : TrieBuf.State} (hs : Writte
   unfold TrieBuf.entries at he
   rw [List.mem_filter, List.mem_append] at he
   rcases he.1 with h | h
-  · exact hs.entries_valid e h
+  · exact hs.entries_valid e (List.mem_filter.mp h).1
   · unfold TrieBuf.btEntries at h
     obtain ⟨x, hx, rfl⟩ := List.mem_map.mp h
     exact validEntry_mk (hb x hx).1 (hb x hx).2
